@@ -189,6 +189,24 @@ def load_known(prop):
     return [e for e in json.load(open(p))["findings"] if e["property"] == prop]
 
 
+def script_complete(hexstr):
+    """helper for known-finding match expressions: does the push structure of the script end exactly at its end?"""
+    raw = bytes.fromhex(hexstr)
+    i, n = 0, len(raw)
+    while i < n:
+        b = raw[i]
+        if 1 <= b <= 75:
+            i += 1 + b
+        elif b in (76, 77, 78):
+            w = 1 << (b - 76)
+            if i + 1 + w > n:
+                return False
+            i += 1 + w + int.from_bytes(raw[i + 1:i + 1 + w], "little")
+        else:
+            i += 1
+    return i == n
+
+
 def match_known(known, ob_name, w):
     for e in known:
         if e.get("status") != "known":
@@ -197,7 +215,8 @@ def match_known(known, ob_name, w):
             continue
         try:
             if eval(e["match"], {"__builtins__": {"len": len, "int": int, "any": any, "all": all, "bytes": bytes, "min": min,
-                                                   "max": max, "abs": abs, "str": str, "isinstance": isinstance, "list": list},
+                                                   "max": max, "abs": abs, "str": str, "isinstance": isinstance, "list": list,
+                                                   "script_complete": script_complete},
                                    "w": w}):
                 return e
         except Exception:
